@@ -190,7 +190,9 @@ class Scalar(object):
         if isinstance(n, ast.UnaryOp) and isinstance(n.op, ast.UAdd):
             return self.ev(n.operand)
         if isinstance(n, ast.BinOp):
-            op = {ast.Add: 'add', ast.Sub: 'sub', ast.Mult: 'mul', ast.Div: 'div', ast.Pow: 'pow'}.get(type(n.op))
+            # `a ** b` is not math.pow(a, b): on two ints it is the exact (unbounded) integer power, math.pow the nearest double (and an
+            # OverflowError beyond 1.8e308) -- the four monitors agree on math.pow
+            op = {ast.Add: 'add', ast.Sub: 'sub', ast.Mult: 'mul', ast.Div: 'div', ast.Pow: 'powop'}.get(type(n.op))
             if not op:
                 raise Unknown('binary operator %s' % type(n.op).__name__)
             return mk(op, [self.ev(n.left), self.ev(n.right)])
@@ -926,6 +928,27 @@ class DenseLoop(object):
         body = [s for s in self.f.body if not (isinstance(s, ast.Expr) and isinstance(s.value, ast.Constant))]
         if body and isinstance(body[0], ast.Raise):
             return ('reject', '?')
+        # `[E for T in S]` (returned or bound) is the loop `out = []; for T in S: out.append(E)`
+        flat = []
+        for st in body:
+            comp, name = None, None
+            if isinstance(st, ast.Return) and isinstance(st.value, ast.ListComp):
+                comp, name = st.value, '__comp'
+            elif isinstance(st, ast.Assign) and len(st.targets) == 1 and isinstance(st.targets[0], ast.Name) and isinstance(st.value, ast.ListComp):
+                comp, name = st.value, st.targets[0].id
+            if comp is not None and len(comp.generators) == 1 and not comp.generators[0].ifs:
+                g = comp.generators[0]
+                init = ast.Assign(targets=[ast.Name(id=name, ctx=ast.Store())], value=ast.List(elts=[], ctx=ast.Load()))
+                app = ast.Expr(value=ast.Call(func=ast.Attribute(value=ast.Name(id=name, ctx=ast.Load()), attr='append', ctx=ast.Load()), args=[comp.elt], keywords=[]))
+                lp = ast.For(target=g.target, iter=g.iter, body=[app], orelse=[])
+                new_stmts = [init, lp] + ([ast.Return(value=ast.Name(id=name, ctx=ast.Load()))] if isinstance(st, ast.Return) else [])
+                for q in new_stmts:
+                    ast.copy_location(q, st)
+                    ast.fix_missing_locations(q)
+                flat += new_stmts
+            else:
+                flat.append(st)
+        body = flat
         lists = {}
         loop = None
         for st in body:
